@@ -38,6 +38,12 @@ func (c11) Rule() string {
 
 func relocate(w *model.World, from, to string) *model.World {
 	out := &model.World{Docs: map[string]interface{}{}, Root: strings.Replace(w.Root, from, to, 1)}
+	fromPath, toPath := "", ""
+	if fu, err := url.Parse(from); err == nil {
+		if tu, err := url.Parse(to); err == nil {
+			fromPath, toPath = fu.EscapedPath(), tu.EscapedPath()
+		}
+	}
 	var fix func(v interface{}) interface{}
 	fix = func(v interface{}) interface{} {
 		switch c := v.(type) {
@@ -45,7 +51,14 @@ func relocate(w *model.World, from, to string) *model.World {
 			m := map[string]interface{}{}
 			for k, x := range c {
 				if s, ok := x.(string); ok && k == "$ref" {
-					m[k] = strings.Replace(s, from, to, 1)
+					switch {
+					case strings.HasPrefix(s, from):
+						m[k] = strings.Replace(s, from, to, 1)
+					case fromPath != "" && strings.HasPrefix(s, fromPath):
+						m[k] = toPath + strings.TrimPrefix(s, fromPath) // a root-relative reference
+					default:
+						m[k] = s
+					}
 				} else {
 					m[k] = fix(x)
 				}
@@ -64,6 +77,15 @@ func relocate(w *model.World, from, to string) *model.World {
 		out.Docs[strings.Replace(u, from, to, 1)] = fix(d)
 	}
 	return out
+}
+
+// relocateHTTP serves a generated world from http://h.test:8080 (worlds with the document at the
+// file-system root are left where they are: its relative references cannot be carried over).
+func relocateHTTP(w *model.World) *model.World {
+	if _, has := w.Docs["file:///e.json"]; has {
+		return w
+	}
+	return relocate(w, "file://"+gen.Prefix+"/", "http://h.test:8080/w/")
 }
 
 // respell composes 1-3 rewrites on a canonical location; returns the spelling and the kinds used.
@@ -184,6 +206,11 @@ func (c11) Gen(r *sim.RNG, tier string, idx int) *Scenario {
 	for i := 0; i < k; i++ {
 		s, _ := respell(r, w.Root)
 		sc.Spellings = append(sc.Spellings, s)
+	}
+	if strings.HasPrefix(w.Root, "file://") {
+		if pu, err := url.Parse(w.Root); err == nil {
+			sc.Spellings = append(sc.Spellings, pu.Path) // the plain (decoded) path
+		}
 	}
 	if strings.HasPrefix(w.Root, "file://"+gen.Prefix+"/api/") {
 		// the same file seen from other working directories, in the same process
